@@ -29,7 +29,7 @@ BUILDS = (("san", ["worker"]),)
 def budget(tier):
     if tier == "thorough":
         return {"charts": 4000, "min_nontrivial": 800}
-    return {"charts": 260, "min_nontrivial": 50}
+    return {"charts": 300, "min_nontrivial": 50}
 
 
 def c_expr(e):
@@ -408,6 +408,8 @@ def shard_main(ctx):
     try:
         o = gen.GenOpts(late_binding=False, local_data=False)
         ctx.run_hypothesis([gen.charts(o, 'lua'), gen.event_histories()], lambda ch, evs: check_case(ctx, ch, evs), n * 2 // 3 + 1, case_repr)
+        ctx.run_hypothesis([gen.charts(gen.conflict_profile(), 'lua'), gen.event_histories(5, ['a', 'b'])],
+                           lambda ch, evs: check_case(ctx, ch, evs), n * 2 // 3 + 1, case_repr, name="conflict")
         big = gen.GenOpts(late_binding=False, local_data=False, max_states=18, max_depth=4, content=False, data=False, conds=False)
         ctx.run_hypothesis([gen.charts(big, 'lua'), gen.event_histories()], lambda ch, evs: check_case(ctx, ch, evs), n // 3 + 1, case_repr,
                            name="big")
